@@ -146,7 +146,7 @@ static void do_fork(int t)
     close(pfd[1]);
     struct pollfd pf = { pfd[0], POLLIN, 0 };
     char buf[64] = ""; int got = 0; long waited = 0;
-    while (waited < 4000) {
+    while (waited < 8000) {
         int pr = poll(&pf, 1, 200); waited += 200;
         if (pr > 0) { ssize_t r = read(pfd[0], buf + got, sizeof buf - 1 - got); if (r <= 0) break; got += r; buf[got] = 0; if (strstr(buf, " g")) break; }
     }
